@@ -359,7 +359,11 @@ func reifyGetField(
 		// None primitive types always get initialized even if it doesn't implement the
 		// Initializer interface, because nested types might implement the Initializer interface.
 		if value == nil {
-			value = &cfgNil{cfgPrimitive{cfg.ctx, cfg.metadata}}
+			// placeholder for the missing setting: it stands at cfg.<name>, so
+			// that errors raised while initializing and validating the field
+			// name the field's own path, not the path of its parent
+			ctx := context{parent: cfgSub{cfg}, field: name}
+			value = &cfgNil{cfgPrimitive{ctx, cfg.metadata}}
 		}
 	}
 
